@@ -210,6 +210,25 @@ void Engine::exec_op(const J &op, int task, int idx) {
 		for (int i = 0; i < 400; i++) { size_t n = oplog.size(); exec_op(ro, task, idx); if (oplog.size() == n || oplog.back().ret == 0) break; }
 		return;
 	}
+	if (k == "heal") {
+		// faults stop; every stall is cleared; then, until the wire is stable for two rounds: let 2.2 s pass (expiry) and have
+		// every node send a spontaneous message (the only moments the library re-evaluates a node)
+		bus.answer_faults.clear();
+		std::vector<size_t> order;
+		for (size_t i = 0; i < bus.nodes.size(); i++) if (bus.nodes[i].present) order.push_back(i);
+		if (op.getb("reverse")) std::reverse(order.begin(), order.end());
+		for (size_t i : order) bus.emit((int) i, MSG_STALL, {0}, {}, 0, 11);
+		flush_and_quiesce(true);
+		int stable = 0;
+		for (int round = 0; round < 60 && stable < 2; round++) {
+			size_t w = bus.wire.size();
+			sim::sleep_us(2200000);
+			for (size_t i : order) bus.emit((int) i, MSG_BM_FREE, {(uint8_t) round}, {}, 0, 12);
+			flush_and_quiesce(true);
+			stable = (bus.wire.size() == w) ? stable + 1 : 0;
+		}
+		return;
+	}
 	if (k == "loopback") {
 		// feed the library's own downlink bytes (since the last loopback) back into its receiver
 		std::vector<uint8_t> b(bus.wire_raw.begin() + (long) loop_pos, bus.wire_raw.end());
@@ -233,7 +252,10 @@ void Engine::exec_op(const J &op, int task, int idx) {
 		t_bidib_node_address n = j_node(op["node"]);
 		sim::ApiScope api(f->name);
 		rec.inv_step = sim::self()->api_invoke_step;
+		size_t si = starts.size();
+		starts.push_back(OpStart{task, &op, rec.inv_step, sim::time_s(), sim::now_us()});
 		f->call(n, a);
+		starts[si].returned = true; starts[si].ret_step = sim::step();
 	} else if (k == "flush") {
 		sim::ApiScope api("bidib_flush");
 		rec.inv_step = sim::self()->api_invoke_step;
